@@ -40,6 +40,7 @@ type OblResult struct {
 	Excuse  string      `json:"excuse,omitempty"`
 	Model   []NondetVal `json:"model,omitempty"`
 	Solver2 string      `json:"verdict2,omitempty"`
+	Via     string      `json:"via,omitempty"`
 }
 
 type HarnessResult struct {
@@ -96,6 +97,7 @@ func main() {
 	witnesses := flag.Int("witnesses", 0, "extra randomised witness models per harness end (replayed natively by the runner)")
 	seed := flag.Int64("seed", 0, "seed of the randomised witnesses")
 	timeout2 := flag.Int("timeout2", 20000, "per-query timeout of the cross-check solver (ms); unknown = not cross-checked")
+	fallback := flag.String("fallback", "", "solver an inconclusive query is retried on (portfolio)")
 	doInit := flag.Bool("init", false, "execute the harness package's init (needed for level K globals)")
 	labels := flag.String("labels", "", "regexp: only obligations whose label matches are emitted (no-panic is always kept)")
 	flag.Parse()
@@ -302,8 +304,8 @@ func main() {
 		wg.Add(1)
 		go func() {
 			defer wg.Done()
-			var s, s2 *Solver
-			defer func() { s.Close(); s2.Close() }()
+			var s, s2, sf *Solver
+			defer func() { s.Close(); s2.Close(); sf.Close() }()
 			for j := range ch {
 				o := &j.h.Obls[j.idx]
 				if j.q.Const != "" {
@@ -332,6 +334,30 @@ func main() {
 						}
 					}
 					o.Model = assembleModel(vals, j)
+				}
+				if o.Verdict != "sat" && o.Verdict != "unsat" && *fallback != "" && *fallback != *solver {
+					// portfolio: an inconclusive answer is retried on the other solver
+					if sf == nil {
+						sf, _ = NewSolver(*fallback)
+					}
+					if sf != nil {
+						v := sf.Check(j.q.Script, *timeout)
+						if v == "sat" || v == "unsat" {
+							o.Verdict = v
+							o.Via = *fallback
+							if v == "sat" && j.model {
+								vals := modelValues(sf, j.q, j.nd)
+								if j.q.Rest != nil && j.q.Rest.Const == "" && vals != nil {
+									if v2 := sf.Check(j.q.Rest.Script, *timeout); v2 == "sat" {
+										for k, x := range modelValues(sf, j.q.Rest, j.nd) {
+											vals[k] = x
+										}
+									}
+								}
+								o.Model = assembleModel(vals, j)
+							}
+						}
+					}
 				}
 				o.Ms = time.Since(t).Milliseconds()
 				if *solver2 != "" {
